@@ -1,6 +1,6 @@
 ---------------------------- MODULE MC_GraphSLAM ----------------------------
 (* Exhaustive bounded model of the system specification: every behaviour of           *)
-(* Construct / Query / SetFixed / OptCall / Reload over a small universe of vertices, edges,   *)
+(* Construct / Query / SetFixed / SetPose / SetMeas / OptCall / Reload over a small universe of vertices, edges,   *)
 (* pose tokens and stop functions.  Checks the frame conditions as action properties  *)
 (* and the binding invariant on ALL reachable states (not only on sampled behaviours).*)
 EXTENDS GraphSLAM
@@ -9,10 +9,14 @@ VertexLists == UNION { [1..n -> [id : 1..MaxV, kind : {"SE2", "R2"}, fixed : BOO
 EdgeChoices == { [cls |-> "odo", vids |-> <<a, b>>, est |-> k, off |-> "none", info |-> <<3, 3>>, valid |-> TRUE, num |-> 0] : a \in 1..MaxV, b \in 1..MaxV, k \in {"SE2", "R2"} }
                \cup { [cls |-> "lm", vids |-> <<a, b>>, est |-> "R2", off |-> "SE2", info |-> <<2, 2>>, valid |-> TRUE, num |-> 0] : a \in 1..MaxV, b \in 1..MaxV }
                \cup { [cls |-> "custom", vids |-> <<a>>, est |-> "array", off |-> "none", info |-> <<1, 1>>, valid |-> v, num |-> 0] : a \in 1..MaxV, v \in BOOLEAN }
+DoSetPose == \E i \in 1..MaxV : \E t \in Tokens : SetPose(i, t)
+DoSetMeas == \E t \in {0, 1} : SetMeas(1, t)
 MCNext ==
   \/ \E vs \in VertexLists : \E e \in EdgeChoices : UniqueIds(vs) /\ Construct(vs, <<e>>)
   \/ \E q \in {"calc_chi2", "edge_jacobians", "to_g2o"} : Query(q)
   \/ \E i \in 1..MaxV : \E b \in BOOLEAN : SetFixed(i, b)
+  \/ DoSetPose
+  \/ DoSetMeas
   \/ \E r \in BOOLEAN : \E np \in [DOMAIN verts -> Tokens] : Reload(r, np, [n \in DOMAIN edges |-> 0])
   \/ \E m \in 1..MaxIterMC : \E ff \in BOOLEAN : \E st \in [1..m -> BOOLEAN] : \E np \in [DOMAIN verts -> Tokens] : OptCall(m, ff, TRUE, st, np)
 MCSpec == Init /\ [][MCNext]_vars
